@@ -328,7 +328,8 @@ fn check_messages(rep: &Report, c: &CiteCase, rng: &mut Rng, core: Option<usize>
                 None => fail(format!("msg:{}:{}:missing", kind, origin), format!("C16: no `{}` message for an instruction that requires one", kind), format!("idx {} ir {:?} segment {:?}", rec.idx, rec.line, &seg[..seg.len().min(200)])),
                 Some(m) => {
                     // the line number must appear as an integer token before the quoted line text
-                    let head = if !want_text.is_empty() { m.find(&want_text).map(|i| &m[..i]).unwrap_or(m) } else { m };
+                    // the quoted line text comes last: search it from the end (short texts such as "INT 3" may also occur in the wording)
+                    let head = if !want_text.is_empty() { m.rfind(&want_text).map(|i| &m[..i]).unwrap_or(m) } else { m };
                     let nums = ints(head);
                     if !nums.contains(&line) {
                         fail(
@@ -489,7 +490,8 @@ fn check_diag(rep: &Report, rng: &mut Rng, core: Option<usize>, cli: bool) {
         rep.count("corruptions that abort the binary (C15's subject)", 1);
         return;
     }
-    let head = if !want_text.is_empty() { plain.find(&want_text).map(|i| &plain[..i]).unwrap_or(&plain[..]) } else { &plain[..] };
+    // the quoted line text comes last: search it from the end (one-character lines such as ">" may also occur in the wording)
+    let head = if !want_text.is_empty() { plain.rfind(&want_text).map(|i| &plain[..i]).unwrap_or(&plain[..]) } else { &plain[..] };
     let nums = ints(head);
     if !nums.contains(&line) {
         fail(format!("diag:{}:{}:line-number", class, where_), format!("C16: the diagnostic for a corrupted token ({}) does not cite the line of that token", class));
@@ -556,7 +558,7 @@ fn check_semantic(rep: &Report, rng: &mut Rng, core: Option<usize>) {
     }
     // duplicate definitions may cite either definition
     let accept: Vec<usize> = if class == "duplicate-label" { vec![bad_line, 9] } else { vec![bad_line] };
-    let head = plain.find(bad).map(|i| &plain[..i]).unwrap_or(&plain[..]);
+    let head = plain.rfind(bad).map(|i| &plain[..i]).unwrap_or(&plain[..]);
     let nums = ints(head);
     let fail = |sig: String, what: String| {
         rep.fail(Failure {
